@@ -317,10 +317,125 @@ fn run_path(thorough_scripts: bool, first: usize, path: &[Act]) -> Result<(), St
 }
 
 pub fn replay(c: &Value) -> Result<(), String> {
+    if c["kind"] == "declare_sweep" {
+        return declare_case(c["size"].as_u64().ok_or("size")?, c["pre"].as_u64().ok_or("pre")? as u8);
+    }
     let first = c["first_script"].as_u64().ok_or("first_script")? as usize;
     let th = c["thorough_scripts"].as_bool().unwrap_or(false);
     let path: Vec<Act> = c["path"].as_array().ok_or("path")?.iter().map(|v| v.as_str().and_then(act_parse).ok_or("bad action")).collect::<Result<_, _>>()?;
     run_path(th, first, &path)
+}
+
+/// The family of declared sizes of the declaration sweep: every value that is special to some way of
+/// computing "too large" (a comparison, a quotient, a narrowed quotient, a shift): around every power of two
+/// and every small odd multiple of one, around every multiple of 2^38 (where a quotient by 192 leaves 32 bits),
+/// whole GiB counts, and the first values above the limit.
+pub fn declare_family() -> Vec<u64> {
+    let mut v: Vec<u64> = vec![];
+    for d in 0..=1024u64 {
+        v.push(MAX + d);
+        v.push(MAX - d);
+        v.push(u64::MAX - d);
+        v.push(d);
+    }
+    for k in 0..64u32 {
+        for q in [1u64, 3, 5, 7, 9, 11, 13, 15] {
+            if let Some(b) = q.checked_mul(1u64 << k) {
+                for e in [-193i64, -192, -191, -2, -1, 0, 1, 2, 191, 192, 193] {
+                    if let Some(x) = b.checked_add_signed(e) {
+                        v.push(x);
+                    }
+                }
+            }
+        }
+    }
+    for m in 1..=1024u64 {
+        for r in [0u64, 1, 191, 192, 193, 1 << 30, (1 << 38) - 1] {
+            v.push((m << 38) + r);
+        }
+    }
+    for g in 1..=4096u64 {
+        v.push(g << 30);
+        v.push((g << 30) + 1);
+    }
+    v.sort_unstable();
+    v.dedup();
+    v
+}
+
+/// One case of the declaration sweep.  `pre`: 0 = fresh generator, 1 = after 13 bytes were fed, 2 = after 13
+/// bytes were fed and the size 13 was declared.
+fn declare_case(v: u64, pre: u8) -> Result<(), String> {
+    guard_case(|| declare_case_unguarded(v, pre))
+}
+
+fn declare_case_unguarded(v: u64, pre: u8) -> Result<(), String> {
+    const DATA: &[u8] = b"Hello, World!";
+    let mut g = Generator::new();
+    if pre >= 1 {
+        g.update(DATA);
+    }
+    if pre >= 2 {
+        g.set_fixed_input_size(DATA.len() as u64).map_err(|e| format!("declaring 13 refused: {:?}", e))?;
+    }
+    let twin = g.clone();
+    let before = format!("{:?}", g);
+    let declared = if pre >= 2 { Some(DATA.len() as u64) } else { None };
+    let exp: Result<(), GeneratorError> = if v > MAX {
+        Err(GeneratorError::FixedSizeTooLarge)
+    } else if declared.is_some() && declared != Some(v) {
+        Err(GeneratorError::FixedSizeMismatch)
+    } else {
+        Ok(())
+    };
+    let forms: &[bool] = if usize::try_from(v).is_ok() { &[false, true] } else { &[false] };
+    for &usize_form in forms {
+        let mut h = g.clone();
+        let res = if usize_form { guarded(|| h.set_fixed_input_size_in_usize(v as usize))? } else { guarded(|| h.set_fixed_input_size(v))? };
+        if res != exp {
+            return Err(format!("set_fixed_input_size{}({}) with {:?} declared after {} bytes returned {:?}, expected {:?}", if usize_form { "_in_usize" } else { "" }, v, declared, if pre >= 1 { 13 } else { 0 }, res, exp));
+        }
+        if res.is_err() {
+            if format!("{:?}", h) != before {
+                return Err(format!("refused declaration {} ({:?}) changed the generator", v, res));
+            }
+            // the refused call leaves no trace: the honest continuation behaves like the twin that never saw it
+            let mut t = twin.clone();
+            if pre == 0 {
+                h.update(DATA);
+                t.update(DATA);
+            }
+            let (a, b) = (guarded(|| h.set_fixed_input_size(13))?, guarded(|| t.set_fixed_input_size(13))?);
+            if a != b || a != Ok(()) {
+                return Err(format!("after the refused declaration {} the honest declaration 13 returned {:?} (twin: {:?})", v, a, b));
+            }
+            let (fa, fb) = (guarded(|| h.finalize())?, guarded(|| t.finalize())?);
+            if fa != fb || fa.is_err() {
+                return Err(format!("after the refused declaration {} finalize gives {:?}, the twin {:?}", v, fa, fb));
+            }
+        } else {
+            // accepted: repeating it is fine, a different one is refused with its specific error
+            let again = guarded(|| h.set_fixed_input_size(v))?;
+            if again != Ok(()) {
+                return Err(format!("repeating the accepted declaration {} returned {:?}", v, again));
+            }
+            let other = if v == 0 { 1 } else { v - 1 };
+            let mis = guarded(|| h.set_fixed_input_size(other))?;
+            if mis != Err(GeneratorError::FixedSizeMismatch) {
+                return Err(format!("declaring {} after {} was accepted returned {:?}", other, v, mis));
+            }
+            let fed = if pre >= 1 { 13 } else { 0 };
+            let fin = guarded(|| h.finalize())?;
+            if v == fed {
+                if fin != guarded(|| twin.finalize())? {
+                    return Err(format!("finalize with the true size {} declared differs from the undeclared result", v));
+                }
+            } else if fin != Err(GeneratorError::FixedSizeMismatch) {
+                return Err(format!("finalize with {} declared and {} fed returned {:?}", v, fed, fin));
+            }
+        }
+    }
+    Ok(())
 }
 
 pub fn run(ctx: &Ctx) -> Report {
@@ -429,6 +544,22 @@ pub fn run(ctx: &Ctx) -> Report {
         }
         rep.set(&format!("space_first_script_{}", o.first), o.space);
     }
+    {
+        let fam = declare_family();
+        let n = fam.len() * 3;
+        let acc = par_shards(n, |i, acc: &mut Acc| {
+            let (v, pre) = (fam[i / 3], (i % 3) as u8);
+            acc.evaluations += 1;
+            acc.nontrivial += 1;
+            acc.bump(if v > MAX { "too_large" } else { "in_range" });
+            if let Err(e) = declare_case(v, pre) {
+                acc.violation(format!("declare_sweep size={} pre={}", v, pre), e, json!({"kind": "declare_sweep", "size": v, "pre": pre}));
+            } else if i == 0 {
+                acc.sample(json!({"kind": "declare_sweep", "size": v, "pre": pre}));
+            }
+        });
+        acc.into_report(&mut rep, "declare_sweep");
+    }
     rep.set("states", states);
     rep.set("transitions", transitions);
     rep.set("traces_validated_against_impl", traces);
@@ -437,7 +568,7 @@ pub fn run(ctx: &Ctx) -> Report {
     rep.set("exhaustive", exhaustive);
     rep.set(
         "rule",
-        "histories over: declare a size from {0, total-1, total, total+1, 192 GiB, 192 GiB+1, u64::MAX} (u64 and usize forms) at any point; in-place zero skip to the script's zero prefix (hook H1); feed the next third of the script (update forms rotate); reset() and start any script; scripts: Hello World, W2^70 (elimination), 96 GiB-448 + W30^64 + 01 (last-piece hash), 192 GiB-448 + W30^64 (exactly the limit), a border crossing, a piece-rich head followed by a long tail without pieces (thorough: four more).  In every state finalize / finalize_without_truncation / finalize_raw / input_size / small-size warning are compared with the declarative reference under the declared-size model; refused declarations must return their specific error and leave the Debug rendering unchanged; finalization must not disturb the generator.  After reset the reference is fresh.",
+        "declaration sweep: every size of an enumerated family (0..1024, 192 GiB +- 0..1024, u64::MAX - 0..1024, q*2^k + e for k 0..63, q odd <= 15, e in {0, +-1, +-2, +-191..193}, m*2^38 + r for m 1..1024, every whole GiB count 1..4096 and +1) declared (u64 and usize forms) on a fresh generator, after 13 bytes, and after 13 bytes with 13 declared: exactly the documented result; a refused call leaves the Debug rendering unchanged and the honest continuation equals a twin that never saw it; an accepted one can be repeated, refuses a different size with FixedSizeMismatch and finalizes iff it is the true size.  histories over: declare a size from {0, total-1, total, total+1, 192 GiB, 192 GiB+1, u64::MAX} (u64 and usize forms) at any point; in-place zero skip to the script's zero prefix (hook H1); feed the next third of the script (update forms rotate); reset() and start any script; scripts: Hello World, W2^70 (elimination), 96 GiB-448 + W30^64 + 01 (last-piece hash), 192 GiB-448 + W30^64 (exactly the limit), a border crossing, a piece-rich head followed by a long tail without pieces (thorough: four more).  In every state finalize / finalize_without_truncation / finalize_raw / input_size / small-size warning are compared with the declarative reference under the declared-size model; refused declarations must return their specific error and leave the Debug rendering unchanged; finalization must not disturb the generator.  After reset the reference is fresh.",
     );
     rep.assume("sizes of 96 / 192 GiB are reached through hook H1's in-place zero skip (validated at start-up)");
     rep
